@@ -39,9 +39,24 @@ def good_messages(rng: random.Random) -> list[bytes]:
 
 
 def undecodable(rng: random.Random) -> bytes:
-    """Correct framing, body that does not decode (AVP overrunning the frame)."""
-    body = b"\x00\x00\x01\x08\x40\x00\x00\x40" + gen.rand_bytes(rng, rng.choice([0, 4, 12]))
-    return gen.rfc_header(1, 20 + len(body), 0x80, rng.choice([257, 272, 999]), 0, rng.getrandbits(32), rng.getrandbits(32)) + body
+    """Correct framing, body that does not decode: an AVP overrunning the frame, or AVPs of intact structure one of
+    whose values cannot be read (junk inside a Grouped AVP, a 3-octet Unsigned32, invalid UTF-8)."""
+    kind = rng.choice(["overrun", "overrun", "grouped-junk", "short-u32", "bad-utf8"])
+    oh = gen.rfc_wire(264, 0, 0x40, b"peer.example.net")
+    orr = gen.rfc_wire(296, 0, 0x40, b"example.net")
+    code = rng.choice([257, 272, 999])
+    if kind == "overrun":
+        body = b"\x00\x00\x01\x08\x40\x00\x00\x40" + gen.rand_bytes(rng, rng.choice([0, 4, 12]))
+    elif kind == "grouped-junk":
+        code = 257
+        body = oh + orr + gen.rfc_wire(260, 0, 0x40, b"\x01\x02\x03\x04\x05")
+    elif kind == "short-u32":
+        code = 999          # (a command without a typed class reads every value while building its attributes)
+        body = oh + orr + gen.rfc_wire(278, 0, 0x40, b"\x00\x01\x02")
+    else:
+        code = 999
+        body = gen.rfc_wire(263, 0, 0x40, b"\xff\xfe\xfd") + oh + orr
+    return gen.rfc_header(1, 20 + len(body), 0x80, code, 0, rng.getrandbits(32), rng.getrandbits(32)) + body
 
 
 def corrupt_length(rng: random.Random, m: bytes, kind: str) -> bytes:
@@ -63,7 +78,7 @@ def parse_out(r: str):
     d, rest = r.split("] ", 1)
     dl = d[2:].split(",") if len(d) > 2 else []
     kv = dict(x.split("=") for x in rest.split(" "))
-    return dl, int(kv["closed"]), int(kv["spin"]), int(kv["resid"])
+    return dl, int(kv["closed"]), int(kv["spin"]), int(kv["resid"]), kv.get("died", "")
 
 
 def run_cases(res: Result, rng: random.Random, tier: str, fails: list):
@@ -83,8 +98,13 @@ def run_cases(res: Result, rng: random.Random, tier: str, fails: list):
         reals.append(r)
         res.cases += 1
         res.count("kind:" + label)
-        dl, closed, spin, resid = parse_out(r)
+        dl, closed, spin, resid, died = parse_out(r)
         stream = b"".join(c for c in chunks)
+        if died:
+            fails.append({"what": f"the reader thread was ended by an exception ({died}) leaving work_read_queue: nothing behind "
+                                  "that point is ever delivered and the connection is not closed", "line": line[:1200], "real": r,
+                          "label": label})
+            return
         if spin:
             fails.append({"what": "reader spins without consuming input", "line": line[:1200], "real": r, "label": label})
             return
